@@ -265,7 +265,12 @@ void start_searching(Uci* uci)
     verif::at(verif::THREAD_START, uci->search.get());
 #endif
     uint64_t key = PolyglotBook::hash(uci->position);
-    if (uci->polyglot.contains(key))
+    // a key whose records all have weight zero offers nothing to the random
+    // policy: the move comes from the search then
+    const bool use_book = uci->polyglot_sample_random_move
+                              ? uci->polyglot.can_sample(key)
+                              : uci->polyglot.contains(key);
+    if (use_book)
     {
         Move move = uci->polyglot_sample_random_move 
             ? uci->polyglot.get_random_move(key, uci->position)
